@@ -101,3 +101,27 @@ contract(U + "UnaryOpBase.match",
     raises={"*": {}},
     serves=["C03"],
 )
+
+# U11b: SequenceBase.match - one new node per entry of the list, in order (C10: no node occurs twice; C02: no entry lost)
+contract("proto:split_entries", trusted=True, pure=True,
+    types=dict(self="str", separator="str"), returns="list[str]", modifies=[],
+    ensures={"never_empty": "len(result) >= 1"}, raises=[],
+    note="str.split(separator) of the abstracted text: at least one piece (Python semantics of split with a separator)")
+
+contract(U + "SequenceBase.match",
+    types=dict(separator="str", subcls="cls", string="str"),
+    returns="tuple[str,list[ref:Base]]?",
+    modifies=["rule_evals"],
+    calls={"string_replace_map": "proto:string_replace_map", "line.split": "proto:split_entries", "srm_line(string).split": "proto:split_entries", "subcls": "proto:operand_rule", "repmap": "pure:str",
+           "type": "pure:any"},
+    ensures={
+        "one_node_per_entry": "implies(result is not None, len(nonnull(result)[1]) == len(srm_line(string).split(separator)))",
+        "entries_in_order": "implies(result is not None, all(rule_text(nonnull(result)[1][k]) == repmap(srm_line(string).split(separator)[k].strip()) "
+                            "and rule_cls(nonnull(result)[1][k]) == subcls for k in range(len(nonnull(result)[1]))))",
+        "no_node_twice": "implies(result is not None, all(all(nonnull(result)[1][j] != nonnull(result)[1][k] "
+                         "for k in range(j + 1, len(nonnull(result)[1]))) for j in range(len(nonnull(result)[1]))))",
+        "separator_kept": "implies(result is not None, nonnull(result)[0] == separator)",
+    },
+    raises={"*": {}},
+    serves=["C10", "C02"],
+)
